@@ -128,6 +128,15 @@ func initState() mstate {
 	return mstate{names: [3]int8{-1, -1, -1}}
 }
 
+// predKindStrict selects which of the two observed store behaviours the
+// reference mirrors for lookups that take a predicate. false: the store buckets
+// by predicate id only, so an immutable query predicate also returns temporal
+// triples with the same id and a temporal one also returns immutable triples
+// (original tree). true: the stored predicate must also have the kind of the
+// query predicate (tree after the "lookups ignore the kind of the given
+// predicate" fix). It is probed from the real store at start-up (-predkind auto).
+var predKindStrict bool
+
 // refLookup is the reference result of a lookup on a set of triples. It is a
 // plain scan; it does not share anything with memory.go.
 func refLookup(set uint64, kind int, s, p, o int, lo loDesc) (string, []string) {
@@ -163,6 +172,9 @@ func refLookup(set uint64, kind int, s, p, o int, lo loDesc) (string, []string) 
 			continue
 		}
 		tp := &preds[t.p]
+		if ki.hasP && predKindStrict && preds[p].temporal != tp.temporal {
+			continue
+		}
 		if tp.temporal {
 			if ki.hasP && preds[p].temporal && preds[p].rank != tp.rank {
 				continue
